@@ -9,7 +9,7 @@ from typing import Dict, List, Set
 from ..absint import MUTATORS
 from ..model import FuncInfo, dotted, norm, walk_no_nested
 from ..report import rule
-from ..util import key
+from ..util import allargs, key
 
 STATE_PROPS = ["C01", "C02", "C03", "C04", "C05", "C06", "C07", "C08", "C09", "C14", "C15", "C16", "C18", "C19"]
 
@@ -140,7 +140,7 @@ def c10_r5(ctx):
             if isinstance(v, ast.Subscript) and _is_container_expr(v.value):
                 cont, keyx = norm(v.value), v.slice
             elif isinstance(v, ast.Call) and isinstance(v.func, ast.Attribute) and v.func.attr in ("get", "setdefault") and _is_container_expr(v.func.value) and v.args:
-                cont, keyx = norm(v.func.value), v.args[0]
+                cont, keyx = norm(v.func.value), allargs(v)[0]
             if cont is None or cont not in stores:
                 continue
             # the value returned comes out of a container that this same function fills: memoisation
@@ -187,7 +187,7 @@ def c04_r9(ctx):
                 for c in ast.walk(w):
                     if isinstance(c, ast.Call) and isinstance(c.func, ast.Attribute) and c.func.attr in ("append", "extend", "appendleft") and isinstance(c.func.value, ast.Name) and c.func.value.id == W and c.args:
                         # where do the pushed nodes come from?  the innermost enclosing loop/comprehension, or the argument itself
-                        src = c.args[0]
+                        src = allargs(c)[0]
                         loopsrc = None
                         for lp in ast.walk(w):
                             if isinstance(lp, (ast.For,)) and any(x is c for x in ast.walk(lp)) and lp is not w:
